@@ -510,7 +510,40 @@ def rule_stored_names_are_fixed_points(repo: Repo, rep: Report, rule: str = "R20
             return e.value.isidentifier()
         if isinstance(e, ast.Call):
             d = dotted(e.func) or ""
-            return ".sanitize_" in d or d.startswith("sanitize_")
+            if ".sanitize_" in d or d.startswith("sanitize_"):
+                return True
+            # a helper of the processor that hands back a name (`self._first_free_name(name, taken)`): every value it returns is a sanitiser result,
+            # an identifier literal, or one of its own parameters whose argument here is such a value
+            nm = d.split(".")[-1]
+            h = pp.module.functions.get(nm) or (pp.cls.methods.get(nm) if pp.cls is not None else None)
+            if h is None or nm in seen:
+                return False
+            HL = _L(h.node)
+            hp = [a.arg for a in h.node.args.args if a.arg not in ("self", "cls")]  # type: ignore[attr-defined]
+
+            def hfp(x: ast.AST, hseen: Set[str]) -> bool:
+                if isinstance(x, ast.Constant) and isinstance(x.value, str):
+                    return x.value.isidentifier()
+                if isinstance(x, ast.Call):
+                    dd = dotted(x.func) or ""
+                    return ".sanitize_" in dd or dd.startswith("sanitize_")
+                if isinstance(x, ast.Name):
+                    if x.id in hseen:
+                        return True
+                    ds_ = [d_ for d_ in HL.defs.get(x.id, []) if not (d_[0] == "assign" and isinstance(d_[1], ast.Constant) and d_[1].value is None)]
+                    ok_ = True
+                    for k_, v_, _ in ds_:
+                        if k_ == "param":
+                            i_ = hp.index(x.id) if x.id in hp else -1
+                            arg = e.args[i_] if 0 <= i_ < len(e.args) else next((kw.value for kw in e.keywords if kw.arg == x.id), None)
+                            ok_ = ok_ and arg is not None and fixed_point(arg, seen | {nm})
+                        else:
+                            ok_ = ok_ and k_ == "assign" and v_ is not None and hfp(v_, hseen | {x.id})
+                    return bool(ds_) and ok_
+                return False
+
+            rets = [r for r in ast.walk(h.node) if isinstance(r, ast.Return) and r.value is not None]
+            return bool(rets) and all(hfp(r.value, set()) for r in rets)
         if isinstance(e, ast.Name):
             if e.id in seen:
                 return True
